@@ -531,4 +531,212 @@ theorem counter_taskStep {k : Nat} {p0 : List Cmd} {S : Int} {t : Task} (hti : t
       refine CI_repc _ hc htx (fun h => ?_) (by intro n; split <;> simp) (by split <;> simp) (by split <;> simp)
       split at h <;> simp [Task.active] at h
 
+theorem counter_wake {k : Nat} {p0 : List Cmd} {S : Int} {t : Task} (hti : t.TI) (hci : CI k S p0 t)
+    (hmf : t.isTx = true → t.mode ≠ .fast) (now : Nat) :
+    CI k S p0 (wake now t) ∧ contrib k p0 (wake now t) = contrib k p0 t := by
+  unfold wake
+  split
+  · rename_i wk hpc
+    split
+    · rename_i hw
+      have hTI' : (settle now t.prog t).TI := BodyTI_settle now _ hti.body
+      have hnc : t.committed = false := by simp [Task.committed, hpc]
+      cases htx : t.isTx
+      · have hcf := hti.plain_ctx htx
+        have f := Frame_settle now t.prog t
+        have hrem := plain_settle (k := k) now t.prog t hcf (by simpa [Task.rem, hpc] using hci.plain htx)
+        have hs : CStep k p0 S t { store := fun _ => some S, lock := fun _ => none, task := settle now t.prog t } :=
+          CStep_plain (by simp) hTI' htx hrem f.isTx f.mode
+        have := hs.ci
+        simp at this
+        exact ⟨this, by simp [contrib, htx, f.isTx]⟩
+      · have hc : t.ctx = true := by
+          cases hc : t.ctx
+          · have := hci.txpc htx hc; rw [hpc] at this; cases this
+          · rfl
+        have hb := hci.body hc (by simp [Task.active, hpc])
+        rw [show t.rem = t.prog by simp [Task.rem, hpc]] at hb
+        have hp := CPark_settle now t.prog t hc (hmf htx) hb
+        have f := Frame_settle now t.prog t
+        exact ⟨CI_of_CPark hp (f.isTx.trans htx), by rw [contrib_zero_of_CPark hp, contrib_of_not_committed hnc]⟩
+    · exact ⟨hci, rfl⟩
+  · rename_i k' left wk hpc
+    have hc := TI.ctx_of_pc hti (by simp [hpc, PC.plainOk])
+    have htx := hti.ctx_tx hc
+    have hnc : t.committed = false := by simp [Task.committed, hpc]
+    split
+    · split
+      · have hp : CPark k S (incrTotal k p0) (abort t .raisedLocked) := CPark_abort hc _ (by simp)
+        have f := Frame_abort t .raisedLocked
+        exact ⟨CI_of_CPark hp (f.isTx.trans htx), by rw [contrib_zero_of_CPark hp, contrib_of_not_committed hnc]⟩
+      · have hb := hci.body hc (by simp [Task.active, hpc])
+        rw [show t.rem = t.prog by simp [Task.rem, hpc]] at hb
+        refine ⟨CI_repc _ hc htx (fun _ => by simpa [Task.rem] using hb) (by simp) (by simp) (by simp), ?_⟩
+        simp [contrib, Task.committed, hpc]
+    · exact ⟨hci, rfl⟩
+  · exact ⟨hci, rfl⟩
+
+/-- the value of the counter in the store (absent = 0, as `incr` reads it) -/
+def World.cval (w : World) (k : Nat) : Int := (w.store k).getD 0
+
+/-- **the counter invariant**: `k`'s value is its initial value plus the totals of the transactions whose commit
+has reached the store -/
+structure World.CounterInv (k : Nat) (m : Mode) (init : Int) (p0 : Nat → List Cmd) (n : Nat) (w : World) : Prop where
+  ci : ∀ i, CI k (w.cval k) (p0 i) (w.tasks i)
+  sum : w.cval k = init + csum (fun i => contrib k (p0 i) (w.tasks i)) n
+  modes : ∀ i, (w.tasks i).isTx = true → (w.tasks i).mode = m
+  inert : ∀ i, n ≤ i → ∃ o, (w.tasks i).pc = .finished o
+
+/-- changing the store's value does not disturb a task that has not buffered `k` -/
+theorem CI_change {k : Nat} {S S' : Int} {p0 : List Cmd} {t : Task} (h : CI k S p0 t)
+    (hn : t.ctx = true → t.active = true → t.ov.get k = none) : CI k S' p0 t :=
+  { plain := h.plain, start := h.start, seed := h.seed, txpc := h.txpc, commitp := h.commitp
+    body := fun hc ha => by
+      have hb := h.body hc ha
+      exact ⟨hb.noclob, hb.nodel, fun v hv => (by rw [hn hc ha] at hv; cases hv), hb.none_⟩ }
+
+theorem CounterInv_step {k : Nat} {m : Mode} (hm : m ≠ .fast) {init : Int} {p0 : Nat → List Cmd} {n : Nat}
+    (w : World) (a : Act) (hti : w.AllTI) (hli : w.LockInv) (h : w.CounterInv k m init p0 n) :
+    (w.step a).CounterInv k m init p0 n := by
+  cases a with
+  | adv d =>
+    have hw := fun i => counter_wake (hti i) (h.ci i) (fun htx => by rw [h.modes i htx]; exact hm) (w.now + d)
+    have hf := fun i => wake_frame (w.now + d) (w.tasks i)
+    refine ⟨fun i => (hw i).1, ?_, ?_, ?_⟩
+    · show w.cval k = _
+      rw [h.sum]
+      congr 1
+      exact csum_congr (fun i _ => ((hw i).2).symm)
+    · intro i htx
+      show (wake (w.now + d) (w.tasks i)).mode = m
+      rw [(hf i).2.1]; exact h.modes i (by rw [← (hf i).1]; exact htx)
+    · intro i hi
+      obtain ⟨o, ho⟩ := h.inert i hi
+      exact ⟨o, by show (wake (w.now + d) (w.tasks i)).pc = _; simp [wake, ho]⟩
+  | run tid =>
+    show (w.runTask tid).CounterInv k m init p0 n
+    have hs := counter_taskStep (hti tid) (h.ci tid) (fun htx => by rw [h.modes tid htx]; exact hm)
+      tid w.now w.store w.lock (S := w.cval k) rfl
+    have hcv : (w.runTask tid).cval k = ((taskStep tid w.now w.store w.lock (w.tasks tid)).store k).getD 0 := rfl
+    refine ⟨?_, ?_, ?_, ?_⟩
+    · intro i
+      by_cases hi : i = tid
+      · subst hi; rw [hcv]; simp only [runTask_tasks_self]; exact hs.ci
+      · simp only [runTask_tasks_ne w tid hi]
+        by_cases hch : (w.runTask tid).cval k = w.cval k
+        · rw [hch]; exact h.ci i
+        · refine CI_change (h.ci i) ?_
+          intro hc ha
+          obtain ⟨hct, hat, v, hv⟩ := hs.changed (by rw [← hcv]; exact hch)
+          cases hg : (w.tasks i).ov.get k with
+          | none => rfl
+          | some v' =>
+            exfalso
+            have h1 := ((h.ci i).body hc ha).some_ v' hg
+            have h2 := ((h.ci tid).body hct hat).some_ v hv
+            rw [h.modes i ((hti i).ctx_tx hc)] at h1
+            rw [h.modes tid ((hti tid).ctx_tx hct)] at h2
+            have hheld : ∀ j, (w.tasks j).active = true → lockKeyOf m k ∈ (w.tasks j).locks → lockKeyOf m k ∈ (w.tasks j).held := by
+              intro j hj hl
+              unfold Task.held
+              split
+              · rename_i hpc; simp [Task.active, hpc] at hj
+              · exact hl
+            exact hi (hli.exclusive (hheld i ha h1.1) (hheld tid hat h2.1))
+    · rw [hcv, hs.delta, h.sum]
+      by_cases htn : tid < n
+      · rw [csum_update (f := fun i => contrib k (p0 i) (w.tasks i))
+            (g := fun i => contrib k (p0 i) ((w.runTask tid).tasks i)) htn
+            (fun i hi => by simp only [runTask_tasks_ne w tid hi])]
+        simp only [runTask_tasks_self]
+        omega
+      · obtain ⟨o, ho⟩ := h.inert tid (by omega)
+        have : taskStep tid w.now w.store w.lock (w.tasks tid) = { store := w.store, lock := w.lock, task := w.tasks tid } :=
+          taskStep_finished _ _ _ _ _ ho
+        rw [this]
+        dsimp only
+        rw [csum_congr (f := fun i => contrib k (p0 i) ((w.runTask tid).tasks i)) (g := fun i => contrib k (p0 i) (w.tasks i))
+          (fun i hi => by rw [runTask_tasks_ne w tid (by omega)])]
+        omega
+    · intro i htx
+      by_cases hi : i = tid
+      · subst hi
+        simp only [runTask_tasks_self] at htx ⊢
+        rw [hs.mode]; exact h.modes i (by rw [← hs.isTx]; exact htx)
+      · simp only [runTask_tasks_ne w tid hi] at htx ⊢
+        exact h.modes i htx
+    · intro i hi
+      obtain ⟨o, ho⟩ := h.inert i hi
+      by_cases hit : i = tid
+      · subst hit
+        exact ⟨o, by simp only [runTask_tasks_self, taskStep_finished _ _ _ _ _ ho]; exact ho⟩
+      · exact ⟨o, by simp only [runTask_tasks_ne w tid hit]; exact ho⟩
+
+theorem csum_zero {f : Nat → Int} {n : Nat} (h : ∀ i, i < n → f i = 0) : csum f n = 0 := by
+  induction n with
+  | zero => rfl
+  | succ n ih => simp only [csum]; rw [ih (fun i hi => h i (by omega)), h n (by omega)]; rfl
+
+/-- the program task `i` starts with -/
+def progOf (ts : List Task) (i : Nat) : List Cmd := (ts.getD i Task.inert).prog
+
+theorem init_task_cases (store : Store) (ts : List Task) (i : Nat) :
+    (i < ts.length ∧ ∃ t ∈ ts, (World.init store ts).tasks i = t) ∨
+    (ts.length ≤ i ∧ (World.init store ts).tasks i = Task.inert) := by
+  by_cases hi : i < ts.length
+  · left
+    refine ⟨hi, ts[i], List.getElem_mem hi, ?_⟩
+    show ts.getD i Task.inert = _
+    rw [List.getD_eq_getElem?_getD, List.getElem?_eq_getElem hi]; rfl
+  · right
+    refine ⟨by omega, ?_⟩
+    show ts.getD i Task.inert = _
+    rw [List.getD_eq_getElem?_getD, List.getElem?_eq_none (by omega)]; rfl
+
+theorem CounterInv_init (store : Store) (ts : List Task) (hf : ∀ t ∈ ts, t.Fresh) (k : Nat) (m : Mode)
+    (hmodes : ∀ t ∈ ts, t.isTx = true → t.mode = m) (honly : ∀ t ∈ ts, OnlyIncr k t.isTx t.prog) :
+    (World.init store ts).CounterInv k m ((store k).getD 0) (progOf ts) ts.length := by
+  refine ⟨?_, ?_, ?_, ?_⟩
+  · intro i
+    have hp : progOf ts i = ((World.init store ts).tasks i).prog := rfl
+    rcases init_task_cases store ts i with ⟨_, t, ht, e⟩ | ⟨_, e⟩
+    · rw [hp, e]
+      have f := hf t ht
+      have ho := honly t ht
+      refine { plain := ?_, start := ?_, body := ?_, seed := ?_, txpc := ?_, commitp := ?_ }
+      · intro hx; rw [hx] at ho; simpa [Task.rem, f.pc, OnlyIncr] using ho
+      · intro hx _; rw [hx] at ho; exact ⟨rfl, ho⟩
+      · intro hc; rw [f.ctx] at hc; cases hc
+      · intro n hpc; rw [f.pc] at hpc; cases hpc
+      · intro _ _; exact f.pc
+      · intro hpc; rw [f.pc] at hpc; rcases hpc with hpc | hpc <;> cases hpc
+    · rw [hp, e]
+      refine { plain := ?_, start := ?_, body := ?_, seed := ?_, txpc := ?_, commitp := ?_ } <;>
+        simp [Task.inert, Task.rem]
+  · show (store k).getD 0 = _
+    rw [csum_zero]; · simp
+    intro i _
+    rcases init_task_cases store ts i with ⟨_, t, ht, e⟩ | ⟨_, e⟩
+    · rw [e]; simp [contrib, Task.committed, (hf t ht).pc]
+    · rw [e]; simp [contrib, Task.inert]
+  · intro i htx
+    rcases init_task_cases store ts i with ⟨_, t, ht, e⟩ | ⟨_, e⟩
+    · rw [e] at htx ⊢; exact hmodes t ht htx
+    · rw [e] at htx; simp [Task.inert] at htx
+  · intro i hi
+    rcases init_task_cases store ts i with ⟨hlt, _⟩ | ⟨_, e⟩
+    · omega
+    · exact ⟨_, by rw [e]; rfl⟩
+
+/-- all three invariants along every schedule that stays within the timeouts -/
+theorem counter_run (store : Store) (ts : List Task) (hf : ∀ t ∈ ts, t.Fresh) (k : Nat) (m : Mode) (hm : m ≠ .fast)
+    (hmodes : ∀ t ∈ ts, t.isTx = true → t.mode = m) (honly : ∀ t ∈ ts, OnlyIncr k t.isTx t.prog)
+    (sched : List Act) (hs : WithinTimeout (World.init store ts) sched) :
+    ((World.init store ts).run sched).CounterInv k m ((store k).getD 0) (progOf ts) ts.length := by
+  have := run_invariant_under
+    (P := fun w => w.AllTI ∧ w.LockInv ∧ w.CounterInv k m ((store k).getD 0) (progOf ts) ts.length) (S := World.Safe)
+    (fun w a hp hsafe => ⟨AllTI_step w a hp.1, LockInv_step w a hp.1 hp.2.1 hsafe, CounterInv_step hm w a hp.1 hp.2.1 hp.2.2⟩)
+    sched _ ⟨AllTI_init store ts hf, LockInv_init store ts hf, CounterInv_init store ts hf k m hmodes honly⟩ hs
+  exact this.2.2
+
 end CashewsVerif.TxSched
